@@ -251,7 +251,7 @@ func cmdCodeObs(args []string) {
 					os.Remove(filepath.Join(dir, "p"))
 				} else {
 					var rc int
-					res, rc, _ = runCmd(dir, 60*time.Second, nil, *node, *runcodes, "p.ts", fmt.Sprint(o.Lo), fmt.Sprint(o.Hi))
+					res, rc, _ = runCmd(dir, 60*time.Second, []string{"NODE_NO_WARNINGS=1"}, *node, *runcodes, "p.ts", fmt.Sprint(o.Lo), fmt.Sprint(o.Hi))
 					if rc != 0 {
 						cv.Note = "load failed: " + tail(res, 400)
 						o.Variants = append(o.Variants, cv)
